@@ -40,6 +40,10 @@ pub fn gen_small_component(rng: &mut Rng) -> u64 {
 const ALPHA_IDS: &[&str] = &[
     "alpha", "beta", "rc", "pre", "dev", "x", "X", "v", "a", "Z", "SNAPSHOT", "next", "canary",
 ];
+/// Identifiers with a non-ASCII character whose low byte is an ASCII alphanumeric: the parser's
+/// identifier predicate looks at `char as u8`, so it accepts them (C05's business); once parsed
+/// they are versions like any other and must print, re-parse and go through serde.
+const NON_ASCII_IDS: &[&str] = &["a\u{131}", "\u{141}1", "\u{131}\u{131}", "rc-\u{171}"];
 const MIXED_IDS: &[&str] = &[
     "rc1", "1a", "a1", "0a", "007a", "1-2", "a-b", "beta-2", "2-migration", "0x10", "1e5", "1E5",
     "00a", "0-0", "x86-64", "sha-5114f85", "exp-sha-5114f85",
@@ -63,6 +67,7 @@ pub fn gen_identifier(rng: &mut Rng) -> IdModel {
         9..=12 => IdModel::Alnum((*rng.pick(ALPHA_IDS)).to_string()),
         13..=15 => IdModel::Alnum((*rng.pick(MIXED_IDS)).to_string()),
         16..=17 => IdModel::Alnum((*rng.pick(HYPHEN_IDS)).to_string()),
+        18 if rng.below(3) == 0 => IdModel::Alnum((*rng.pick(NON_ASCII_IDS)).to_string()),
         18 => IdModel::Alnum((*rng.pick(BIG_DIGITS)).to_string()),
         _ => {
             // random identifier over the alphabet, with at least one non-digit
@@ -85,6 +90,24 @@ pub fn gen_vmodel(rng: &mut Rng) -> VModel {
         8 => 3,
         _ => 1 + rng.usize_below(8),
     };
+    // now and then a version with dozens of short identifiers (up to what MAX_LENGTH allows)
+    if rng.below(40) == 0 {
+        let n = 9 + rng.usize_below(56);
+        let short = |rng: &mut Rng| match rng.below(3) {
+            0 => IdModel::Num(rng.below(10)),
+            1 => IdModel::Alnum((*rng.pick(&["a", "b", "x", "-", "rc"])).to_string()),
+            _ => IdModel::Num(rng.below(100)),
+        };
+        let in_build = rng.coin();
+        let ids: Vec<IdModel> = (0..n).map(|_| short(rng)).collect();
+        return VModel {
+            major: gen_component(rng) % 1000,
+            minor: rng.below(10),
+            patch: rng.below(10),
+            pre: if in_build { vec![] } else { ids.clone() },
+            build: if in_build { ids } else { vec![] },
+        };
+    }
     let nbuild = match rng.below(10) {
         0..=5 => 0,
         6..=7 => 1,
@@ -441,6 +464,19 @@ pub fn gen_range_text(rng: &mut Rng) -> String {
 }
 
 pub fn gen_rsrc(rng: &mut Rng, depth: u32) -> RSrc {
+    // rarely: the product of two families of nested intervals, i.e. a set-operation result with
+    // hundreds of alternatives (more than either operand could have as parsed text)
+    if depth > 0 && rng.below(2500) == 0 {
+        let family = |rng: &mut Rng, k: usize| -> String {
+            let lo = rng.below(3);
+            (0..k)
+                .map(|i| format!(">={}.0.0 <{}.{}.0", lo, 50 + i, rng.below(4)))
+                .collect::<Vec<_>>()
+                .join("||")
+        };
+        let (k, m) = (12 + rng.usize_below(13), 12 + rng.usize_below(13));
+        return RSrc::Intersect(Box::new(RSrc::Text(family(rng, k))), Box::new(RSrc::Text(family(rng, m))));
+    }
     if depth > 0 && rng.below(5) == 0 {
         let a = Box::new(gen_rsrc(rng, depth - 1));
         let b = Box::new(gen_rsrc(rng, depth - 1));
